@@ -37,6 +37,9 @@ func main() {
 		{"PointIndexGen.v", genPointIndex},
 		{"LineGen.v", genLine},
 		{"ChildrenGen.v", genChildren},
+		{"FindGen.v", genFind},
+		{"HitsGen.v", genHits},
+		{"DescentGen.v", genDescent},
 		{"KmpGen.v", genKmp},
 		{"SnapSmallGen.v", genSnapSmall},
 		{"KmpDedupGen.v", genKmpDedup},
